@@ -47,6 +47,7 @@ ALL_FEATURES = (
     "lexvar",
     "nested_include",
     "local_table",
+    "leading_code",
 )
 # "big_incbin" (a >64 KiB contiguous block) is opt-in: callers add it explicitly with a low probability.
 
@@ -843,6 +844,20 @@ class Gen:
             root += self.custom_map()
         include_at = rng.randrange(n_sections) if "include" in f else -1
         section_addrs: list[int] = []
+        if "leading_code" in f and self.mapping == "low" and not use_map:
+            # statements before the first '*=': assembled from the position a fresh Program starts at
+            lead = f"L{self.uid()}"
+            self.globals.append(lead)
+            prog.global_labels.append(lead)
+            self.note_label(lead)
+            root.append(stmt(f"{lead}:", "label"))
+            root += [self.plain_instr() for _ in range(rng.randrange(1, 4))]
+            lead2 = f"L{self.uid()}"
+            self.globals.append(lead2)
+            prog.global_labels.append(lead2)
+            self.note_label(lead2)
+            root += [stmt(f"{lead2}:", "label"), stmt(f".dl {lead}, {lead2}")]
+            self.used_banks.add(0)
         for s in range(n_sections):
             bank = self.pick_section_bank(far)
             addr = (bank << 16) | pick_offset(rng, self.mapping if not use_map else "low")
